@@ -21,7 +21,7 @@ CHECKS = {
    text="Every exported SetX/X() pair of the 15 packet types and TopicFilter is evaluated on the SSA form as transition function and decision function over abstract receiver states (all 256 values of every flag byte the setter reads, zero and all-ones backgrounds) and abstract arguments (all booleans, representative bytes, boundary integers, lengths 0/1/2 with identity tags): pairing (X() returns the value set; SetQoS: 0..3, else 0), frame (no other zero-argument accessor of the type changes) and derived flags (CONNECT user-name/password flags iff non-empty; SetWill mirrors will flag, retain and QoS bits). Pairing + frame give last-write-wins for every finite setter sequence by induction. Adders and the encoded frame are C01's.",
    technique="static analysis: evaluation of extracted transition/decision functions over a finite abstract domain (no library code is run; the SSA form is the formula)"),
  "C18": dict(level="proof", ref="§4 C18",
-   text="Non-interference by taint analysis: forward value-flow over the SSA form of every function reachable from Connect.String, Connect.dump and Dump, from loads of the fields behind Username()/Password() (and struct copies containing them) through conversions, slicing, element loads, phis, local stores, copy into buffers, closures, calls and results; no tainted value reaches a fmt operand, a Write argument or a returned rendering, and no branch condition is tainted (no implicit flow); len/cap/copy-count carry only the length. For packets decoded from the wire the sequential reader's offset is shown to be written only by its guarded primitive, which only moves forward, so no byte is decoded into two fields. Proof modulo the fmt model.",
+   text="Non-interference by taint analysis: forward value-flow over the SSA form of every function reachable from Connect.String, Connect.dump and Dump, from loads of the fields behind Username()/Password() (and struct copies containing them) through conversions, slicing, element loads, phis, local stores, copy into buffers, closures, calls and results; no tainted value reaches a fmt operand, a Write argument or a returned rendering, and no branch condition is tainted (no implicit flow); len/cap/copy-count carry only the length. For packets decoded from the wire the sequential reader's offset is shown to be written only by its guarded primitive, which only moves forward, so no byte is decoded into two fields, and the CONNECT decoder touches the frame only through that reader (the input slice is otherwise used only to build the reader and in len()). Proof modulo the fmt model.",
    technique="static analysis: interprocedural secrecy taint (explicit and implicit flows) on go/ssa"),
  "C15": dict(level="other", ref="§4 C15",
    text="The structural part only: all radix/mask/bound/continuation constants of the encoder and of both decoders are extracted from the SSA form (normalising <<7, *128, %128, &127), compared with each other and with MQTT's 7-bit groups and 4-byte maximum; the two decoders agree on update, guard and termination test; the encoder sets the continuation bit exactly when the quotient is non-zero and leaves exactly when it is zero; both decoders keep the size guard on every cycle and only the no-continuation exit reaches success; the streaming decoder consumes one byte per iteration; the in-memory path advances by the encoder's dry-run width inside the reader's bounds check; the fixed header's length cell is written by the streaming decoder alone (no second decoder in front of it). The numeric bijection over 2^28 values and exact decoded values are NOT decided.",
@@ -33,7 +33,7 @@ CHECKS = {
    text="Publish.WellFormed, Subscribe.WellFormed and TopicFilter.WellFormed are treated as decision functions over the receiver's fields (identified through the exported accessors and the constructor's type code): every combination of abstract values of the atoms the rules mention (topic empty?, alias, all 256 first bytes, packet id, 0-3 filters, filter empty?, option bytes, subscription id absent/0/1/limit/limit+1) is pushed through the function's SSA decision tree and compared with the rule from the property text; String is shown to return through the suffixing helper on the same receiver, and the helper to return its argument unchanged iff WellFormed()==nil and else a constant format containing 'malformed!'.",
    technique="static analysis: decision-tree extraction from go/ssa and propositional comparison over the atoms' finite abstract domain; CFG result-flow rule for String"),
  "C10": dict(level="other", ref="§4 C10",
-   text="WriteTo's shape is read off the SSA form by value identity: one buffer made with the dry-run size fill(nil-slice,0) of the receiver, filled once by the same function from offset 0, exactly one Write of that very buffer on every path, the writer used for nothing else, results int64(n), err of that call; Undefined returns a non-nil error and never touches the writer. A ghost counter over the emissions of every fill-family function shows each emission to be made at entry offset + widths of all earlier emissions and the return to be that sum; primitives are shown to write contiguous pieces totalling what they return (extent rule, byte-per-iteration rule for the variable-byte-integer encoder); the returned width is the same on both sides of every buffer-size guard (dry run = real run); String prints the dry-run size; buffer-size guards skip writes only when the buffer really is too short. The remaining-length value equals the bytes that follow: evaluated on every abstract packet state (incl. boundary lengths) and decided structurally for all states by path enumeration over every function that emits a length prefix (the dry-run calls summed into the prefix are exactly the emissions it covers).",
+   text="WriteTo's shape is read off the SSA form by value identity: one buffer made with the dry-run size fill(nil-slice,0) of the receiver, filled once by the same function from offset 0, exactly one Write of that very buffer on every path, the writer used for nothing else, results int64(n), err of that call; Undefined returns a non-nil error and the count 0 and never touches the writer; a WriteTo may delegate to a shared helper of the same shape. A ghost counter over the emissions of every fill-family function shows each emission to be made at entry offset + widths of all earlier emissions and the return to be that sum; primitives are shown to write contiguous pieces totalling what they return (extent rule, byte-per-iteration rule for the variable-byte-integer encoder); the returned width is the same on both sides of every buffer-size guard (dry run = real run); String prints the dry-run size; buffer-size guards skip writes only when the buffer really is too short. The remaining-length value equals the bytes that follow: evaluated on every abstract packet state (incl. boundary lengths) and decided structurally for all states by path enumeration over every function that emits a length prefix (the dry-run calls summed into the prefix are exactly the emissions it covers).",
    technique="static analysis: SSA value-identity/result-flow rules, ghost-counter offset threading, linear-form equality of written extents"),
  "C09": dict(level="other", ref="§4 C09",
    text="The four rejection classes as path rules on the SSA form: (a) truncation inside a field — every field is read through the sequential reader's guarded primitive, proven to fail at end of data and never to advance beyond it, and every wire decoder is proven to return nil only when at least its minimum width is present, every other return being a non-nil error; the sticky error is what every packet decoder returns and ReadPacket turns it into (nil, err); (b) both variable-byte-integer decoders keep the size guard on every cycle and only the no-continuation-bit exit reaches success; (c) the boolean decoder succeeds only on the byte==0 / byte==1 edges; (d) in the property loop every iteration reads a value or records a non-nil error, and all accepted identifiers are among the 27 of MQTT v5.0 and the identifier decoder stores the byte read unchanged. The mechanism is decided, not the enumeration of every cut of every frame.",
@@ -54,7 +54,7 @@ CHECKS = {
    text="Interprocedural write-effect/provenance analysis (fresh / parameter / parameter-reachable / captured / package variable; field-sensitive for fresh objects, closures and bound methods followed through bindings, fmt's reflective callees included): no read-only operation writes memory reachable from its receiver, arguments or package variables; package variables are assigned only in init and shared storage is never written in place; ReadPacket writes only memory it allocated. Without a write to a shared location no interleaving can race. Proof modulo the stdlib effect table.",
    technique="static analysis: bottom-up effect and provenance summaries on go/ssa (purity analysis)"),
  "C14": dict(level="proof", ref="§4 C14",
-   text="Retention edges from the provenance analysis: no UnmarshalBinary (16 packets + 9 wire types) stores anything derived from its input slice into non-fresh memory, returns it, or writes through it; no exported API returns package-variable storage or an uncopied load of a field sharing it; package state is init-only; the frame buffer handed to UnmarshalBinary on ReadPacket's tree is a make() of that call. Proof modulo the stdlib effect table.",
+   text="Retention edges from the provenance analysis: no UnmarshalBinary (16 packets + 9 wire types) stores anything derived from its input slice into non-fresh memory, returns it, or writes through it; no exported API returns package-variable storage or an uncopied load of a field sharing it; package state is init-only; the frame buffer handed to UnmarshalBinary on ReadPacket's tree is a make() of that call tree; no decoder overwrites storage its receiver held before the call; ReadPacket writes only memory allocated during the call and the packet it returns is allocated during the call. Proof modulo the stdlib effect table.",
    technique="static analysis: escape/retention (taint to non-fresh stores) via provenance summaries on go/ssa"),
  "C06": dict(level="proof", ref="§4 C06",
    text="Reader-use discipline on ReadPacket's call tree decided from SSA: the reader is only read through full-read primitives, header reads use 1-byte buffers, the body buffer's length is (without arithmetic or narrowing conversion) the cell written only by the streaming length reader on the same header object, the length loop consumes one byte per iteration with a data-dependent successful exit, and every exit of the body stage lies behind the completed body read or on the length==0 edge. Hence exactly 1+k+remaining bytes are requested on success and on content rejection. Proof modulo io contracts; the numeric agreement of length value and bytes consumed is C15's.",
